@@ -360,7 +360,9 @@ def malGen (seed idx size : Nat) : Case :=
         | _ =>
           let v ← anyVal size
           let mut bs := enc v
-          let k ← Gen.range 1 4
+          -- 1..4 operators, 1..8 in one case out of four (case 4 of `corrupt` replaces 0..4 bytes by 0..4 others: it
+          -- inserts, deletes or overwrites a span)
+          let k ← (do if ← Gen.prob 1 4 then Gen.range 1 8 else Gen.range 1 4)
           for _ in [0:k] do bs ← corrupt bs
           -- sometimes under another type's oid
           let oid ← if ← Gen.prob 1 5 then Gen.oneOf malOids else pure v.typeOid
